@@ -1,5 +1,11 @@
 open Datatypes
 
+(** val hd_error : 'a1 list -> 'a1 option **)
+
+let hd_error = function
+| [] -> None
+| x :: _ -> Some x
+
 (** val tl : 'a1 list -> 'a1 list **)
 
 let tl = function
